@@ -9,7 +9,9 @@ struct World { log: Vec<String>, fail_watch: HashSet<String>, fail_unwatch: Hash
 fn name_of(p: &Path) -> String { p.strip_prefix("/p").unwrap_or(p).to_string_lossy().replace('/', ".") }
 fn key(p: &Path, rec: bool) -> String { format!("{}{}", name_of(p), if rec { "+" } else { "-" }) }
 fn wp(k: &str) -> WatchedPath { let name = &k[..k.len() - 1]; let p = PathBuf::from(format!("/p/{}", name.replace('.', "/"))); if k.ends_with('+') { WatchedPath::recursive(p) } else { WatchedPath::non_recursive(p) } }
-fn kind(k: &str) -> Kind { if k == "P" { Kind::Poll(Duration::from_millis(50)) } else { Kind::Native } }
+/// `Q` is the poll watcher with another interval: an interval-only change is a change of kind too
+fn kind(k: &str) -> Kind { if k == "P" { Kind::Poll(Duration::from_millis(50)) } else if k == "Q" { Kind::Poll(Duration::from_millis(80)) } else { Kind::Native } }
+fn kind_name(k: &Kind) -> &'static str { match k { Kind::Native => "N", Kind::Poll(d) if *d == Duration::from_millis(80) => "Q", _ => "P" } }
 
 fn apply(cfg: &Config, paths: &[String], k: &str) {
     // two independent public setters, as a client would call them
@@ -73,7 +75,7 @@ async fn run_case(ops: Vec<String>) -> String {
         // `hookn:<kind>`: Config::file_watcher is called from INSIDE this creation (another thread changing the kind while the watcher is built)
         let pending = world.lock().unwrap().newhook.take();
         if let Some(nk) = pending { let cfg = world.lock().unwrap().cfg.clone().unwrap(); cfg.file_watcher(kind(&nk)); }
-        let mut w = world.lock().unwrap(); w.log.push(format!("new:{}", if matches!(k, Kind::Native) { "N" } else { "P" })); w.live = Some(vec![]); w.live_kind = Some(if matches!(k, Kind::Native) { "N" } else { "P" }); w.gen += 1; let gen = w.gen;
+        let mut w = world.lock().unwrap(); w.log.push(format!("new:{}", kind_name(&k))); w.live = Some(vec![]); w.live_kind = Some(kind_name(&k)); w.gen += 1; let gen = w.gen;
         Ok(Box::new(RecW { w: world.clone(), registered: vec![], gen }) as Box<dyn notify::Watcher + Send>) } }));
     let cfg = Arc::new(Config::default());
     world.lock().unwrap().cfg = Some(cfg.clone());
@@ -110,7 +112,7 @@ async fn run_case(ops: Vec<String>) -> String {
     // what is configured at the end (after in-call changes too): the oracle compares it with what is registered
     let mut conf: Vec<String> = cfg.pathset.get().iter().map(|p| { let p: &WatchedPath = p; key(p.as_ref(), format!("{p:?}").contains("recursive: true")) }).collect(); conf.sort();
     // … and the kind of the watcher that is active at the end (the one created last and not yet dropped)
-    format!("{}\tCFG={}|{}|{}", out.join(";"), conf.join(","), if matches!(cfg.file_watcher.get(), Kind::Native) { "N" } else { "P" }, live_kind)
+    format!("{}\tCFG={}|{}|{}", out.join(";"), conf.join(","), kind_name(&cfg.file_watcher.get()), live_kind)
 }
 
 fn main() {
